@@ -8,6 +8,8 @@ const DEFAULT_BUFFER_LEN: usize = if cfg!(test) { 13 } else { 1024 };
 pub(crate) struct TextDecoder {
     encoding: AsciiCompatibleEncoding,
     pending_source_location_bytes_start: usize,
+    /// Start of the bytes the decoder has consumed without producing any text for them yet
+    pending_unreported_bytes_start: usize,
     pending_text_streaming_decoder: Option<Decoder>,
     text_buffer: String,
 }
@@ -21,6 +23,7 @@ impl TextDecoder {
     pub fn new(encoding: AsciiCompatibleEncoding) -> Self {
         Self {
             pending_source_location_bytes_start: 0,
+            pending_unreported_bytes_start: 0,
             encoding,
             pending_text_streaming_decoder: None,
             // this will be later initialized to DEFAULT_BUFFER_LEN,
@@ -58,6 +61,14 @@ impl TextDecoder {
     ) -> Result<(), RewritingError> {
         let mut raw_input = input_span.as_slice();
         let mut next_source_location_bytes_start = input_span.source_location().bytes().start;
+        // Bytes of an incomplete sequence that were consumed earlier without producing text
+        // belong to the next chunk that is reported, so that chunks cover the whole text node.
+        let mut unreported_bytes_start = if self.pending_text_streaming_decoder.is_some() {
+            self.pending_unreported_bytes_start
+                .min(next_source_location_bytes_start)
+        } else {
+            next_source_location_bytes_start
+        };
 
         let encoding = self.encoding.get();
 
@@ -68,6 +79,7 @@ impl TextDecoder {
             let source_location =
                 SourceLocation::from_start_len(next_source_location_bytes_start, utf8_text.len());
             next_source_location_bytes_start = source_location.bytes().end;
+            unreported_bytes_start = next_source_location_bytes_start;
 
             (output_handler)(utf8_text, really_last, encoding, source_location)?;
 
@@ -92,11 +104,14 @@ impl TextDecoder {
                 decoder.decode_to_str(raw_input, buffer, last_in_text_node);
 
             let finished_decoding = status == CoderResult::InputEmpty;
-            let source_location =
-                SourceLocation::from_start_len(next_source_location_bytes_start, read);
-            next_source_location_bytes_start = source_location.bytes().end;
+            next_source_location_bytes_start += read;
+            let source_location = SourceLocation::from_start_len(
+                unreported_bytes_start,
+                next_source_location_bytes_start - unreported_bytes_start,
+            );
 
             if written > 0 || last_in_text_node {
+                unreported_bytes_start = next_source_location_bytes_start;
                 // the last call to feed_text() may make multiple calls to output_handler,
                 // but only one call to output_handler can be *the* last one.
                 let really_last = last_in_text_node && finished_decoding;
@@ -115,6 +130,7 @@ impl TextDecoder {
                     self.pending_text_streaming_decoder = None;
                 } else {
                     self.pending_source_location_bytes_start = next_source_location_bytes_start;
+                    self.pending_unreported_bytes_start = unreported_bytes_start;
                 }
                 return Ok(());
             }
